@@ -1678,6 +1678,39 @@ package badger
 //@   assert[max-version-covers-entry] before call KeyWithTs : arg0 == kv.Key && arg1 == kv.Version && sw.maxVersion >= kv.Version
 //@   assert[value-copied] before call Copy : arg0 == kv.Value
 
+// checkOverlap: the key range of the given tables is tested against every level from `lev`
+// downwards, and one overlapping table is enough.
+//@ func (*levelsController).checkOverlap
+//@   props C12
+//@   light
+//@   assert[range-of-given-tables] before call getKeyRange : arg0 == tables
+//@   assert[only-levels-from-lev] before call overlappingTables : rangeindex + 1 >= lev && arg0 == s.levels[rangeindex + 1] && held(s.levels[rangeindex + 1].RWMutex)
+//@   assert[one-overlap-is-enough] before return#1 : result && ret1(overlappingTables#1) - ret0(overlappingTables#1) > 0
+//@   assert[none-means-no] before return#2 : !result
+
+// fillTables (level N to N+1): a table already being compacted is not picked; the bottom tables
+// are exactly the next level's tables overlapping the picked table's range; a compaction whose
+// bottom range is being compacted is not started; it is started only after it was registered.
+//@ func (*levelsController).fillTables
+//@   props C12 C14
+//@   light
+//@   assert[range-of-picked-table] before call overlapsWith#1 : arg1 == cd.thisLevel.level && cd.thisRange.left == ret(getKeyRange#1).left && cd.thisRange.right == ret(getKeyRange#1).right
+//@   assert[bottom-overlaps-picked-range] before call overlappingTables : arg0 == cd.nextLevel && !ret(overlapsWith#1) && len(cd.top) == 1 && cd.top[0] == t
+//@   assert[bottom-range-free] before call compareAndAdd#2 : !ret(overlapsWith#2)
+//@   assert[registered-before-start] before return#4 : result && ret(compareAndAdd#2)
+//@   assert[registered-before-start-empty-bottom] before return#3 : result && ret(compareAndAdd#1)
+//@   assert[levels-locked] before call sortByHeuristic : held(cd.thisLevel.RWMutex) && held(cd.nextLevel.RWMutex)
+
+// fillTablesL0ToL0: only compactor 0; tables being compacted, big or fresh ones are left out;
+// fewer than four tables are not worth it; the whole key range is claimed so that no L0 to base
+// compaction runs meanwhile, and every picked table is marked as being compacted.
+//@ func (*levelsController).fillTablesL0ToL0
+//@   props C12 C14
+//@   light
+//@   assert[only-compactor-zero] before call RLock : cd.compactorId == 0
+//@   assert[not-already-compacting] before call append#1 : !beingCompacted && held(s.cstatus.RWMutex)
+//@   assert[at-least-four] before return#2 : !result && len(out) < 4
+
 // ---- call-order rules that recovery relies on (C08, C10): ordering obligations only ----
 // Neither property is decided (a crash point is a cut through the effects of several
 // goroutines; a power loss needs a model of which writes survive). What is checked is that the
